@@ -133,7 +133,7 @@ func fqkGetOrNil(m meta.Definition, container map[string]interface{}) interface{
 func fqkGet(m meta.Definition, container map[string]interface{}) (interface{}, bool) {
 	v, found := container[m.Ident()]
 	if !found {
-		mod := meta.OriginalModule(m)
+		mod := meta.DefiningModule(m)
 		v, found = container[fmt.Sprintf("%s:%s", mod.Ident(), m.Ident())]
 	}
 	return v, found
